@@ -205,7 +205,10 @@ def main(argv=None):
   # inconclusive?
   reasons = []
   if not args.replay:
-    mins = getattr(check, 'MINIMUMS', {}).get(tier, {})
+    all_mins = getattr(check, 'MINIMUMS', {})
+    # the thorough tier does at least the quick tier's work: quick minimums are floors for it
+    mins = dict(all_mins.get('quick', {})) if tier == 'thorough' else {}
+    mins.update(all_mins.get(tier, {}))
     for name, need in mins.items():
       have = m['evaluations'] if name == 'evaluations' else (
           len(m['distinct']) if name == 'distinct' else m['observed'].get(name, 0))
